@@ -220,6 +220,10 @@ def ordered_candidates_rule(ck, ix):
         keyf = next((k.value for k in c.keywords if k.arg == "key"), None)
         if m_ is None or keyf is None:
             continue
+        # the stem as written at the lookup (a local shared with the key function) and as resolved: the same value
+        w_ = shape.unalias(c.args[0], f.node)
+        mw_ = shape.match("_T.get(_X.lower(), *_R)", w_) or shape.match("_T[_X.lower()]", w_)
+        same_stem = {m_["_X"]} | ({mw_["_X"]} if mw_ is not None else set())
         if isinstance(keyf, ast.Name):
             keyf = next((d for d in ast.walk(f.node) if isinstance(d, ast.FunctionDef) and d.name == keyf.id), None)
         if not isinstance(keyf, (ast.Lambda, ast.FunctionDef)) or not keyf.args.args:
@@ -231,7 +235,7 @@ def ordered_candidates_rule(ck, ix):
             if par in (l_, r_):
                 others.append(r_ if l_ == par else l_)
         for o in others:
-            ck.check(o == m_["_X"], "G-DET", "_yield_unit_triplets|as-written-spelling-is-the-looked-up-stem", f.loc(c), "the sort key prefers the stem that was looked up",
+            ck.check(o in same_stem, "G-DET", "_yield_unit_triplets|as-written-spelling-is-the-looked-up-stem", f.loc(c), "the sort key prefers the stem that was looked up",
                      f"the candidates of `{m_['_X']}.lower()` are ordered by comparison with `{o}`, not with `{m_['_X']}`: for prefixed or plural strings the spelling as written no longer comes first (km -> kilomolar)")
 
 def parse_unit_name_rule(ck, ix):
@@ -300,20 +304,21 @@ def yield_triplets_rule(ck, ix):
     ck.check(all(inside(y) and framed(y) for y in ys), "G-PROV", "_yield_unit_triplets|all-prefix-suffix-combinations", fi.loc(), "all suffix x prefix combinations that frame the string", "candidates are no longer produced for exactly the (suffix, prefix) pairs that frame the string")
     # the stem
     CUT, STEM = f"unit_name[len({P}):]", f"unit_name[len({P}):][:-len({S})]"
+    ONE = f"unit_name[len({P}):len(unit_name) - len({S})]"          # both strips in one slice: right for an empty suffix too
     slices = [x for x in walk_local(fn) if isinstance(x, ast.Subscript) and isinstance(x.slice, ast.Slice)]
     texts = {R(x) for x in slices}
     plural_only = all(shape.holds_at(x, fn, is_S, True) for x in slices if R(x) == STEM)
-    ck.check(CUT in texts and STEM in texts and plural_only, "G-PROV", "_yield_unit_triplets|strips-prefix-and-suffix", fi.loc(), "prefix and suffix are stripped exactly",
+    ck.check((CUT in texts and STEM in texts and plural_only) or (ONE in texts and STEM not in texts), "G-PROV", "_yield_unit_triplets|strips-prefix-and-suffix", fi.loc(), "prefix and suffix are stripped exactly",
              f"prefix/suffix stripping changed (off-by-one?): {sorted(norm(x) for x in slices)}" if plural_only else "the suffix is stripped although it may be empty (`x[:-0]` is empty)")
-    stem_names = {n for n, ds in dfs.defs.items() if n not in dfs.params and ds and all(k == "assign" and v is not None and R(v) in (CUT, STEM) for (v, k, st) in ds)}
-    is_stem = lambda text: text in (CUT, STEM) or text in stem_names
+    stem_names = {n for n, ds in dfs.defs.items() if n not in dfs.params and ds and all(k == "assign" and v is not None and R(v) in (CUT, STEM, ONE) for (v, k, st) in ds)}
+    is_stem = lambda text: text in (CUT, STEM, ONE) or text in stem_names
 
     def one_letter(a_):
         """`len(<de-pluralised stem>) == 1`"""
         b = shape.match("len(_X) == 1", a_)
         if b is None:
             return False
-        return R(a_.left.args[0]) == STEM or (b["_X"] in stem_names and shape.holds_at(orig(a_), fn, is_S, True))
+        return R(a_.left.args[0]) == STEM or ((b["_X"] in stem_names or R(a_.left.args[0]) == ONE) and shape.holds_at(orig(a_), fn, is_S, True))
     yield_nodes = [i for y in ys for i in cfg.nodes_for_ast(getattr(y, "_parent", y))]
     loop_nodes = [n.id for n in cfg.nodes if n.kind == "for" and any(n.stmt is l_ for l_ in pair_loops)]
     e1 = sorted(set(shape.guard_edges(cfg, one_letter, want=True)))
@@ -439,9 +444,14 @@ def dedup_rule(ck, ix):
         twin = f"('', {p_} + {u_}, '')"
         drops = []
         for c_ in ast.walk(l):
-            if isinstance(c_, ast.Call) and isinstance(c_.func, ast.Attribute) and isinstance(c_.func.value, ast.Name) and c_.args and norm(c_.args[0]) == twin:
+            if isinstance(c_, ast.Call) and isinstance(c_.func, ast.Attribute) and isinstance(c_.func.value, ast.Name) and c_.args and shape.rnorm(c_.args[0], fn) == twin:
                 how = {"pop": "pop", "add": "filter"}.get(c_.func.attr)
                 if how is not None and all(r is None or r == (how, c_.func.value.id) for r in results):
+                    drops.append(c_)
+            elif isinstance(c_, ast.Delete) and len(c_.targets) == 1 and isinstance(c_.targets[0], ast.Subscript) and isinstance(c_.targets[0].value, ast.Name) and shape.rnorm(c_.targets[0].slice, fn) == twin:
+                tbl_ = c_.targets[0].value.id          # `del U[twin]`, only where `twin in U` is known (no KeyError)
+                present = shape.holds_at(c_, fn, lambda a_: isinstance(a_, ast.Compare) and isinstance(a_.ops[0], ast.In) and shape.rnorm(a_.left, fn) == twin and norm(a_.comparators[0]) == tbl_, True)
+                if present and all(r is None or r == ("pop", tbl_) for r in results):
                     drops.append(c_)
         okd = okd and len(drops) == 1 and shape.holds_at(drops[0], fn, lambda a_: isinstance(a_, ast.Name) and a_.id == p_, True)
     ck.check(okd, "G-PROV", "_dedup_candidates|prefixed-reading-preferred", fi.loc(), "the unprefixed twin ('', prefix+unit, '') of a prefixed reading is dropped", "_dedup_candidates no longer drops the unprefixed twin of a prefixed reading")
@@ -571,8 +581,13 @@ def outcome_table(fn, atom_of, n_atoms: int) -> dict:
             elif isinstance(st, (ast.Assign, ast.AnnAssign)) and isinstance(st.targets[0] if isinstance(st, ast.Assign) else st.target, ast.Name) and st.value is not None:
                 name = (st.targets[0] if isinstance(st, ast.Assign) else st.target).id
                 env[name] = subst(st.value, env)            # a flag or an intermediate value: evaluated / substituted where it is used
+            elif isinstance(st, ast.FunctionDef):
+                helpers[st.name] = st            # a nested helper (e.g. one that builds the exception) is looked into where it is called
             elif isinstance(st, ast.Raise):
-                exc = st.exc.func if isinstance(st.exc, ast.Call) else st.exc
+                exc = st.exc
+                if isinstance(exc, ast.Call) and isinstance(exc.func, ast.Name) and exc.func.id in helpers and shape.single_return(helpers[exc.func.id]) is not None:
+                    exc = shape.single_return(helpers[exc.func.id])
+                exc = exc.func if isinstance(exc, ast.Call) else exc
                 return "raise:" + (norm(exc) if exc is not None else "")
             elif isinstance(st, ast.Return):
                 return "return"
@@ -581,7 +596,7 @@ def outcome_table(fn, atom_of, n_atoms: int) -> dict:
             else:
                 raise _Undecided(norm(st)[:60])
         return None
-    table = {}
+    table, helpers = {}, {}
     for oracle in _it.product((False, True), repeat=n_atoms):
         table[oracle] = run_(fn.body, {}, oracle) or "end"
     return table
